@@ -317,6 +317,22 @@ func c14ExtraTrees() map[string]*world.Config {
 		lk.Keys = sortKeysC14(lk)
 		out["200-byte-keys/"+sf] = lk
 		out["40-keys-default-bf16/"+sf] = world.UintCfg(16, urange(1, 40), 1, f, "none")
+		// lengths at the one-byte / two-byte / three-byte uvarint boundaries: element bodies of exactly
+		// 127, 128, 129 and 16383, 16384, 16385 bytes (a JSON string of n characters is n+2 bytes), string
+		// keys of those body lengths, and single nodes holding exactly 127, 128 and 129 entries
+		for _, n := range []int{127, 128, 129, 16383, 16384, 16385} {
+			out[fmt.Sprintf("value-bodies-of-%d-bytes/%s", n, sf)] = world.IntCfg(4, []int{1, 2, 3, 4, 5}, []interface{}{strings.Repeat("v", n-2)}, "", f, "none")
+		}
+		for _, n := range []int{127, 128, 129} {
+			lk := world.StringCfg(2, []uint8{0, 1, 0}, f, "none")
+			for i := range lk.Keys {
+				k := lk.Keys[i].(string)
+				lk.Keys[i] = k + strings.Repeat("k", n-2-len(k))
+			}
+			lk.Keys = sortKeysC14(lk)
+			out[fmt.Sprintf("key-bodies-of-%d-bytes/%s", n, sf)] = lk
+			out[fmt.Sprintf("%d-entries-in-one-node-bf256/%s", n, sf)] = world.UintCfg(256, urange(1, uint(n)), 1, f, "none")
+		}
 	}
 	return out
 }
@@ -335,10 +351,17 @@ func c14ExtraRoots(storeCheck func(cfg *world.Config, name string, b []byte)) (m
 		if err != nil {
 			return nil, err
 		}
+		failed := false
 		for k := range cfg.Keys {
 			if r := w.Apply(world.Op{Kind: world.OpIns, K: (k*7 + 3) % len(cfg.Keys), V: 0}); r.Err != nil || r.Panic != nil {
-				return nil, fmt.Errorf("%s: %v", name, r)
+				// the code under test failed on a healthy store: recorded as this tree's outcome (it then differs from the vector)
+				out[name] = "insert failed: " + report.Norm(fmt.Sprint(r))
+				failed = true
+				break
 			}
+		}
+		if failed {
+			continue
 		}
 		for k := range cfg.Keys { // any key the permutation missed
 			if _, ok := w.Model[0][k]; !ok {
@@ -347,7 +370,12 @@ func c14ExtraRoots(storeCheck func(cfg *world.Config, name string, b []byte)) (m
 		}
 		r := w.Apply(world.Op{Kind: world.OpReload})
 		if r.Err != nil || r.Panic != nil {
-			return nil, fmt.Errorf("%s: %v", name, r)
+			out[name] = "persist+load failed: " + report.Norm(fmt.Sprint(r))
+			for _, n := range w.Store.Names() {
+				b, _ := w.Store.Has(n)
+				storeCheck(cfg, n, b)
+			}
+			continue
 		}
 		for _, n := range w.Store.Names() {
 			b, _ := w.Store.Has(n)
